@@ -204,7 +204,7 @@ class Ctx:
         open(os.path.join(dst, "go.sum"), "w").write("".join(sums))
         binp = os.path.join(dst, "harness.bin")
         cmd = ([GO, "test", "-c"] if test else [GO, "build"]) + ["-tags", tags, "-o", binp] + (["-race"] if race else []) + ["."]
-        rc, o, e = run(cmd, cwd=dst, env=goenv(), timeout=1200)
+        rc, o, e = run(cmd, cwd=dst, env=goenv(), timeout=3000)
         if rc != 0:
             return None, (o + e)[-4000:]
         return binp, None
